@@ -607,6 +607,10 @@ class Polygon(Shape2D):
             self.normal,
         )
         outward_normals /= np.linalg.norm(outward_normals, axis=-1)[:, np.newaxis]
+        if self.signed_area < 0:
+            # The vertices run clockwise about the normal, so the cross products above
+            # point into the polygon.
+            outward_normals *= -1
 
         # vstack the row corresponding to the constraint equation
         a = np.vstack(
